@@ -97,6 +97,23 @@ def run(ctx):
         enc_h = attempt(lambda: HDKey(Key(d), witness_type=wt_).encrypt(pw))
         ctx.count('hdkey-encrypt:' + wt_)
         enc_cases.append(('bip38_enc bitcoin %d 1 %s' % (d, derived.hex()), enc_h or 'none', True))
+    # ... and an HD key object of any witness type opens a BIP38 string like a plain key object does
+    for wt_ in (None, 'legacy', 'segwit', 'p2sh-segwit'):
+        d = rng.choice(secrets)
+        pw = rng.choice(passes[:4])
+        comp_ = rng.random() < 0.7
+        enc_ = attempt(lambda: Key(d, compressed=comp_).encrypt(pw))
+        if not enc_:
+            continue
+        ctx.evals += 1
+        ctx.count('hdkey-import:%s' % wt_)
+        try:
+            hk_ = HDKey(enc_, password=pw) if wt_ is None else HDKey(enc_, password=pw, witness_type=wt_)
+            got_ = (hk_.secret, hk_.compressed)
+        except Exception as e:
+            got_ = 'raise:%s:%s' % (type(e).__name__, str(e)[:50])
+        if got_ != (d, comp_) and not (not comp_ and wt_ != 'legacy' and 'Uncompressed' in str(got_)):
+            ctx.violation('an HD key object does not open a BIP38 string with its passphrase', {'op': 'hdkey-import', 'witness_type': wt_, 'compressed': comp_, 'observed': str(got_)[:120]})
     ctx.compare(enc_cases, 'encrypt')
     ctx.compare(dec_cases, 'decrypt')
 
